@@ -16,6 +16,9 @@ Inductive base :=
 | BOpt            (* Option<i32> *)
 | BGen            (* a generic parameter T with no Debug bound (whatever it is instantiated with) *)
 | BGenD           (* a generic parameter U: Debug *)
+| BAmb            (* a user struct `Amb(i32, i32)` whose hand-written Debug impl shows only the first field, while PartialEq
+                     (derived) compares both: two values may be unequal although their Debug texts are identical.
+                     Values: VCon "Amb" [VInt shown; VInt hidden] *)
 | BImp.           (* the WHOLE parameter type `&mut L<'a>` (a unique borrow of a type with a lifetime parameter): the macro's
                      MutImpossible class (method.rs classify_arg) -- the Inputs component is `unimock::Impossible`, so the
                      identifier debug_inputs binds has type `&Impossible`, whatever the caller passed *)
@@ -77,7 +80,9 @@ Fixpoint fmt_debug (v : value) : string :=
   | VInt n => dec n
   | VStr s => quote ++ s ++ quote
   | VCon name [] => name
-  | VCon name args => name ++ "(" ++ join ", " (map fmt_debug args) ++ ")"
+  | VCon name ((x :: _) as args) =>
+    if String.eqb name "Amb" then "Amb(" ++ fmt_debug x ++ ")"          (* the hand-written impl hides the second field *)
+    else name ++ "(" ++ join ", " (map fmt_debug args) ++ ")"
   | VList vs => "[" ++ join ", " (map fmt_debug vs) ++ "]"
   end.
 
